@@ -228,12 +228,14 @@ Apply(op, ps) ==
 (*   f  identity on its first parameter, not declared stateless            *)
 (*   p  identity on its first parameter, declared in StatelessOperators    *)
 (*   g  fails with sentinel "op:g" when its first parameter is int 2       *)
+(*   one  takes no parameters, returns 1                                   *)
 (*   h  stateful: returns how many times it has been called (value taken   *)
 (*      from the observation, never predicted)                             *)
 (***************************************************************************)
-CustomNames == {"f", "p", "g", "h"}
+CustomNames == {"f", "p", "g", "h", "one"}
 Custom(name, ps) ==
-  CASE name \in {"f", "p"} -> ps[1]
+  CASE name = "one" -> I(1)                      \* zero-operand operator: pushes a value without popping any
+    [] name \in {"f", "p"} -> ps[1]
     [] name = "g" -> IF VEq(ps[1], I(2)) THEN E("op:g") ELSE ps[1]
     [] OTHER -> E("other")
 
